@@ -1,16 +1,112 @@
-(* C14 — property theorems (work in progress: the full list follows once CopyProofs is complete). *)
+(* C14 — property theorems only.  zix_copy_file (CopyModel.v, following filesystem_posix.c / system.c /
+   errno_status.c branch for branch) runs against the scripted kernel of CopySpec.v.  Quantified over: source
+   kind and bytes, destination state (absent, other file, alias of the source = same path / hard link / symlink,
+   directory), errno at entry, EVERY script of call outcomes (full, short count, any errno, for open, fstat,
+   stat, copy_file_range, read, write, fdatasync, close, posix_fadvise), both options, both st_blksize values,
+   every answer of the caller's allocator (block, or NULL leaving any errno).
+
+   Two explicit environment hypotheses, each shown necessary by a `_refuted` theorem:
+   - guard_ok: stat(destination) is not faulted while the destination IS the source and OVERWRITE is set
+     (the same-file guard depends on that call; faults on stat are outside the property's fault list);
+   - blk_sane: st_blksize < 2^32 (the code casts it to uint32_t; a multiple of 2^32 gives block size 0). *)
 From Coq Require Import ZArith List Bool Lia.
-From Zix Require Import CopySpec CopyModel.
+From Zix Require Import CopySpec CopyModel CopyProofs CopyProofs2.
 Import ListNotations.
 Local Open Scope Z_scope.
 
-(* zix_errno_status maps 0, and only 0, to SUCCESS *)
+Definition copy (sk : skind) (src : list Z) (d : dstate) (errno0 : Z) (script : list outcome)
+           (overwrite : bool) (b1 b2 : Z) (al : alloc_answer) : status * world :=
+  zix_copy_file (world0 sk src d errno0 script) overwrite b1 b2 al.
+
+(* SUCCESS only for a complete copy (of a regular source): the destination then holds exactly the source's bytes *)
+Theorem copy_success_complete : forall sk src d errno0 script overwrite b1 b2 al,
+  guard_ok d overwrite script -> blk_sane b1 b2 ->
+  fst (copy sk src d errno0 script overwrite b1 b2 al) = SUCCESS ->
+  sk = SReg /\ dst_bytes (snd (copy sk src d errno0 script overwrite b1 b2 al)) = Some src.
+Proof. exact success_complete. Qed.
+Print Assumptions copy_success_complete.
+
+(* no I/O operation fails (short counts allowed; the first copy_file_range may answer EXDEV/EINVAL/ENOSYS, as
+   across file systems) and the two are different files: SUCCESS, whatever the allocator answers *)
+Theorem copy_no_fault_success : forall src d errno0 script overwrite b1 b2 al,
+  dst_writable d overwrite -> blk_sane b1 b2 ->
+  benignb (match src with [] => true | _ => false end) script = true ->
+  fst (copy SReg src d errno0 script overwrite b1 b2 al) = SUCCESS.
+Proof. exact no_fault_success. Qed.
+Print Assumptions copy_no_fault_success.
+
+(* the source's bytes are never modified *)
+Theorem copy_source_unchanged : forall sk src d errno0 script overwrite b1 b2 al,
+  guard_ok d overwrite script ->
+  w_src (snd (copy sk src d errno0 script overwrite b1 b2 al)) = src.
+Proof. exact source_unchanged. Qed.
+Print Assumptions copy_source_unchanged.
+
+(* without the overwrite option an existing destination (file, alias, directory) is untouched, the call fails,
+   and with EXISTS when none of the four calls made on that path is faulted *)
+Theorem copy_excl_untouched : forall sk src d errno0 script b1 b2 al,
+  d <> DAbsent ->
+  let r := copy sk src d errno0 script false b1 b2 al in
+  w_dst (snd r) = d /\ w_src (snd r) = src /\ fst r <> SUCCESS /\
+  (sk = SReg -> fault_freeS (firstn 4 script) -> fst r = EXISTS).
+Proof. exact excl_untouched. Qed.
+Print Assumptions copy_excl_untouched.
+
+(* a source that is not a regular file (directory, device, missing) is refused, nothing is touched, and every
+   descriptor is closed *)
+Theorem copy_nonregular_refused : forall sk src d errno0 script overwrite b1 b2 al,
+  sk <> SReg ->
+  let r := copy sk src d errno0 script overwrite b1 b2 al in
+  fst r <> SUCCESS /\ w_fds (snd r) = [] /\ w_dst (snd r) = d /\ w_src (snd r) = src.
+Proof. exact nonregular_refused. Qed.
+Print Assumptions copy_nonregular_refused.
+
+(* every descriptor opened is closed, on every path (no hypothesis at all) *)
+Theorem copy_fds_closed : forall sk src d errno0 script overwrite b1 b2 al,
+  w_fds (snd (copy sk src d errno0 script overwrite b1 b2 al)) = [].
+Proof. exact fds_closed. Qed.
+Print Assumptions copy_fds_closed.
+
+(* the model's loops never run out of fuel: the theorems above are about terminating runs *)
+Theorem copy_terminates : forall sk src d errno0 script overwrite b1 b2 al,
+  guard_ok d overwrite script -> fst (copy sk src d errno0 script overwrite b1 b2 al) <> OUT_OF_FUEL.
+Proof. exact never_out_of_fuel. Qed.
+Print Assumptions copy_terminates.
+
+(* zix_errno_status maps 0, and only 0, to SUCCESS (why a stale errno matters to zix_system_close_fds) *)
 Theorem errno_status_success_iff : forall e, zix_errno_status e = SUCCESS <-> e = 0.
-Proof.
-  intro e. unfold zix_errno_status, errno_map. cbn [errno_lookup].
-  unfold EACCES, EAGAIN, EEXIST, EINVAL, EMLINK, ENOENT, ENOMEM, ENOSPC, ENOSYS, EPERM, ETIMEDOUT, ENOTSUP.
-  split.
-  - repeat (match goal with |- context [?a =? e] => destruct (Z.eqb_spec a e) end; try discriminate; try lia).
-  - intros ->. reflexivity.
-Qed.
+Proof. exact CopyProofs.errno_status_success_iff. Qed.
 Print Assumptions errno_status_success_iff.
+
+(* ---- the two hypotheses are necessary ---- *)
+
+(* stat(destination) faulted (EIO) while the destination is a link to the source and OVERWRITE is set: the
+   source is truncated and SUCCESS returned.  Outside the property's fault list; recorded, not a finding. *)
+Theorem copy_source_stat_fault_refuted :
+  exists src script, 
+    fst (copy SReg src DAlias 0 script true 4096 4096 AOk) = SUCCESS /\
+    w_src (snd (copy SReg src DAlias 0 script true 4096 4096 AOk)) <> src.
+Proof. exists [1; 2; 3], [Full; Full; Err 5%positive]. vm_compute. split; [reflexivity|discriminate]. Qed.
+Print Assumptions copy_source_stat_fault_refuted.
+
+(* st_blksize = 2^32 and the kernel copy unavailable: block size 0, SUCCESS with an empty destination *)
+Theorem copy_blksize_refuted :
+  exists src script,
+    fst (copy SReg src DAbsent 0 script false (2 ^ 32) 4 AOk) = SUCCESS /\
+    dst_bytes (snd (copy SReg src DAbsent 0 script false (2 ^ 32) 4 AOk)) <> Some src.
+Proof. exists [1; 2], [Full; Full; Full; Full; Full; Err 18%positive]. vm_compute. split; [reflexivity|discriminate]. Qed.
+Print Assumptions copy_blksize_refuted.
+
+(* ---- the hypotheses are satisfiable on non-trivial inputs ---- *)
+Example guard_ok_ex : guard_ok DAlias true [Full; Full; Full].
+Proof. intros (_ & _ & H). discriminate H. Qed.
+Example blk_sane_ex : blk_sane 4096 512.
+Proof. split; reflexivity. Qed.
+Example benign_ex : benignb false [Full; Short 1; Full; Full; Full; Err 18%positive; Full; Full; Short 2] = true.
+Proof. reflexivity. Qed.
+(* a multi-block copy through the block loop with short reads and writes, kernel copy unavailable *)
+Example copy_ex :
+  let r := copy SReg [1;2;3;4;5;6;7;8;9] (DFile [42]) 5 [Full;Full;Full;Full;Full;Err 18%positive;Full;Full;Short 3;Short 1]
+                true 4 4 (AFail 12) in
+  fst r = SUCCESS /\ dst_bytes (snd r) = Some [1;2;3;4;5;6;7;8;9] /\ w_fds (snd r) = [].
+Proof. vm_compute. auto. Qed.
